@@ -603,6 +603,16 @@ pub fn check_c09(case: &RawCase, rr: &RawRun, an: &Analysed, out: &mut Outcome) 
         out.label("injection-not-delivered");
         return;
     }
+    // rows about a stream the endpoint refused for exceeding its limit presuppose that it did refuse it: when the
+    // earlier streams had already finished (delivery delayed by chunking or blocked writes) the stream was accepted
+    // legitimately and the row says nothing
+    if matches!(inj.item.as_str(), "refused-stream-id-opened-again" | "in-flight-frames-on-refused-stream") {
+        let refused = inj.never_surface.first().map(|s| an.tap.frames.iter().any(|f| f.from == e && matches!(&f.frame, Ok(Frame::Rst { stream, .. }) if stream == s))).unwrap_or(false);
+        if !refused {
+            out.label("premise-not-met:stream-was-not-refused");
+            return;
+        }
+    }
     out.nontrivial = true;
     let _ = mark_t;
     // E's frames after the first injected byte was delivered
